@@ -46,6 +46,12 @@ CLAIMED = {
   "note": "Trusted: Lean kernel + three standard axioms; translator regexes for the tables; getopts 0.2.24 semantics as modelled (differentially tested on every spelling); PathBuf::set_extension modelled for paths without trailing separator; printing to the screen (-p) is observed as 'no file written' here, its text on the real binary only in the thorough tier; undocumented aliases (F27) and equal derived names (F21) are known findings.",
   "technique": "Lean 4 proof (decide over extracted tables, induction over groups) + extracted tables + model/implementation correspondence",
  },
+ "C10": {
+  "text": "Lean 4 theorems (Casm/Props/C10.lean): the model has no clock, environment or global state, so non-determinism could only enter where the Rust code iterates a hash container; the translator lists every such site and every piece of global state on every run and hash_sites_are_the_modelled_ones / no_global_state pin those lists (a new iteration site, static mut, thread_local, clock or env read is an undischarged obligation); symbols_order_free - the symbol listing is the same for every enumeration order of the children (sorted by unique declaration index); copy_order_free - the map-to-map copies of hygienize_locals_for_asm_subst and of the asm-block label binding agree on every key for every visiting order. Search: a mixed corpus (multi-file symbol programs with equal offsets, asm blocks, functions, bank programs, faulty programs, all output formats through driver::drive, format strings with several unknown parameters) is executed by three fresh processes (independent hash seeds) and once in reverse order; every answer must be byte-identical.",
+  "design_ref": "DESIGN.md section 6, C10",
+  "note": "Trusted: Lean kernel + three standard axioms; the translator's regular expressions for iteration sites and global state (a site spelled in a way they do not recognise would be missed by the theorem and left to the repeated-run search); scheduler and allocator themselves are outside any model; threads are exercised in the thorough tier only.",
+  "technique": "Lean 4 proof (permutation invariance) + extracted site lists + repeated execution across processes",
+ },
 }
 
 NOT_YET = {}
